@@ -672,6 +672,10 @@ func (ex *Exec) havocLoop(st *State, fr *Frame, lp *Loop) {
 			st.Heap[o] = ex.havocAll(cur, o.Typ)
 			continue
 		}
+		if a, ok := o.Site.(*ssa.Alloc); ok && !allocEscapes(a) {
+			// a local whose address never leaves its function can only be written by direct stores (ws.Allocs)
+			continue
+		}
 		st.Heap[o] = ex.havocByType(cur, o.Typ, ws, false)
 	}
 }
@@ -1103,4 +1107,111 @@ func (ex *Exec) onEventDiscipline(st *State, ev *Event) {
 			ex.record(st, ob)
 		}
 	}
+}
+
+// CheckLemma turns a lemma into one obligation over fresh symbolic values of the declared types.
+func (ex *Exec) CheckLemma(lm *Lemma) {
+	st := &State{Heap: map[*Object]Value{}, PreHeap: map[*Object]Value{}, Ghost: map[string]Value{}, PreGhost: map[string]Value{}, Held: map[string]int{}}
+	names := map[string]Value{}
+	var pkg *ssa.Package
+	for _, p := range ex.Prog.AllPackages() {
+		if p.Pkg.Path() == lm.Pkg {
+			pkg = p
+		}
+	}
+	for _, v := range lm.Vars {
+		switch v[1] {
+		case "nat":
+			t := Var(ex.G.name("lemma_"+v[0]), SInt)
+			ex.G.facts[t.Name] = []*Term{Ge(t, IntC(0))}
+			names[v[0]] = t
+		case "int":
+			names[v[0]] = Var(ex.G.name("lemma_"+v[0]), SInt)
+		case "uint64":
+			names[v[0]] = ex.G.FreshInt("lemma_"+v[0], types.Typ[types.Uint64])
+		case "string":
+			names[v[0]] = ex.G.FreshBytes("lemma_"+v[0], -1)
+		case "bool":
+			names[v[0]] = Var(ex.G.name("lemma_"+v[0]), SBool)
+		default:
+			var tt types.Type
+			if pkg != nil {
+				if tn := pkg.Type(v[1]); tn != nil {
+					tt = tn.Type()
+				}
+			}
+			if tt == nil {
+				ex.Specs.Errors = append(ex.Specs.Errors, fmt.Sprintf("%s: lemma: unknown type %s", lm.Line, v[1]))
+				return
+			}
+			names[v[0]] = ex.G.Fresh(tt, "lemma_"+v[0])
+		}
+	}
+	var errs []string
+	env := &Env{ex: ex, st: st, names: names, errs: &errs}
+	saveEntry := ex.entry
+	ex.entry = nil
+	t := env.evalBool(lm.Body)
+	ex.entry = saveEntry
+	if t == nil {
+		ex.Specs.Errors = append(ex.Specs.Errors, fmt.Sprintf("%s: lemma %q: %s", lm.Line, lm.Src, strings.Join(errs, "; ")))
+		return
+	}
+	ob := &Obligation{Name: fmt.Sprintf("lemma/%s/%s", shortName(lm.Pkg), lm.Label), Kind: "lemma", Goal: t, Props: lm.Props, Note: lm.Line}
+	ex.record(st, ob)
+}
+
+var escapeMemo = map[*ssa.Alloc]bool{}
+
+// allocEscapes: does the address of this local flow anywhere but loads, direct stores, field/index address
+// computations and slices that are only converted to strings?
+func allocEscapes(a *ssa.Alloc) bool {
+	if v, ok := escapeMemo[a]; ok {
+		return v
+	}
+	var esc func(v ssa.Value, depth int) bool
+	esc = func(v ssa.Value, depth int) bool {
+		if depth > 6 || v.Referrers() == nil {
+			return true
+		}
+		for _, r := range *v.Referrers() {
+			switch x := r.(type) {
+			case *ssa.UnOp, *ssa.DebugRef:
+			case *ssa.Store:
+				if x.Val == v {
+					return true
+				}
+			case *ssa.FieldAddr:
+				if esc(x, depth+1) {
+					return true
+				}
+			case *ssa.IndexAddr:
+				if esc(x, depth+1) {
+					return true
+				}
+			case *ssa.Slice:
+				// slice of a local array: fine when it is only read (converted to string / ranged / len)
+				if x.Referrers() == nil {
+					return true
+				}
+				for _, r2 := range *x.Referrers() {
+					switch y := r2.(type) {
+					case *ssa.Convert, *ssa.DebugRef:
+					case *ssa.Call:
+						if b, ok := y.Call.Value.(*ssa.Builtin); !ok || (b.Name() != "len" && b.Name() != "cap") {
+							return true
+						}
+					default:
+						return true
+					}
+				}
+			default:
+				return true
+			}
+		}
+		return false
+	}
+	r := esc(a, 0)
+	escapeMemo[a] = r
+	return r
 }
